@@ -1616,11 +1616,19 @@ package decimal128
 // Compose (C14): for coefficients of at most 32 bytes (longer ones go through math/big and are outside
 // this contract). be(sig, n) is the big-endian value of the first n bytes. V is the magnitude
 // coefficient x 10^exp; success means the result denotes it exactly (never rounded).
+// a big-endian byte string whose first byte is not zero denotes a positive number
+//@ lemma be_lower
+//@ forall a bytes, n int
+//@ induct n from 1
+//@ hyp n >= 1 && a[0] >= 1
+//@ holds be(a, n) >= 1
+//@ props C14
+
 //@ func Decimal.Compose
 //@ uses rssteps=1,4,19 rsmono=0,1,36 timeout=60
 //@ returns (err)
 //@ logical V real
-//@ requires len(sig) <= 32 && V >= 0 && rs(V, exp + 6176) == be(sig, len(sig)) && exp <= 2147483600
+//@ requires len(sig) <= 100000 && V >= 0 && rs(V, exp + 6176) == be(sig, len(sig)) && exp <= 2147483600
 //@ ensures form == 1 ==> tag(err) == 0 && isinf(*d) && sign(*d) == neg && lo(*d) == 0
 //@ ensures form == 2 ==> tag(err) == 0 && isnan(*d) && !sign(*d) && lo(*d) == payloadOpCompose
 //@ ensures form > 2 ==> tag(err) != 0 && *d == old(*d)
@@ -1628,7 +1636,10 @@ package decimal128
 //@ ensures form == 0 && tag(err) == 0 ==> !special(*d) && sign(*d) == neg && rs(V, bexp(*d)) == coef(*d)
 //@ loop 1: invariant 0 <= i && i <= l && l == len(sig) && form == 0 && exp == old(exp) && *d == old(*d) && be(sig, len(sig)) == be(sig, i, l - i)
 //@ loop 1: decreases l - i
-//@ assert before "if len(sig) > 32 {": len(sig) >= 1 && len(sig) <= 32 && rs(V, exp + 6176) == be(sig, len(sig)) && be(sig, 0) == 0 && be(sig, 1) == sig[0]
+//@ assert before "if len(sig) > 32 {": len(sig) >= 1 && rs(V, exp + 6176) == be(sig, len(sig)) && sig[0] >= 1
+//@ apply before "if len(sig) > 32 {": be_lower(sig, len(sig))
+//@ assert before "var sig128 uint128": len(sig) >= 1 && len(sig) <= 32 && rs(V, exp + 6176) == be(sig, len(sig))
+//@ assert before "var sig128 uint128": be(sig, 0) == 0 && be(sig, 1) == sig[0]
 //@ loop 3: invariant 1 <= i && i <= l && l == len(sig) && 17 <= l && l <= 32 && form == 0 && exp == old(exp) && *d == old(*d)
 //@ loop 3: invariant u256(sig256) == be(sig, i) && rs(V, exp + 6176) == be(sig, len(sig))
 //@ loop 3: decreases l - i
@@ -1645,7 +1656,8 @@ package decimal128
 //@ loop 8: decreases 0 - exp
 //@ loop 9: invariant rs(V, exp + 6176) == u128(sig128) && u128(sig128) <= M && form == 0 && *d == old(*d) && exp >= 0 - 6176
 //@ loop 9: decreases exp
-//@ waive cover at "for bigsig.BitLen() > 32*8 {": coefficients longer than 32 bytes are outside this contract (requires len(sig) <= 32)
+//@ loop 2: invariant form == 0 && *d == old(*d) && *bigsig >= 1 && rs(V, exp + 6176) == real(*bigsig) && *den == 10000000000000000000 && exp <= 6111
+//@ loop 2: decreases *bigsig
 //@ props C14 C20
 
 // ---------------------------------------------------------------------------
@@ -2170,6 +2182,18 @@ package decimal128
 //@ assert before "if exp64 < minBiasedExponent-maxDigits {": p10 == p10(ye - 6176) && ye <= 6183 && yc <= 6111 && yc == oSig[0]
 //@ assert before "if exp64 < minBiasedExponent-maxDigits {": exp64 == 6176 + EE
 //@ call RoundingMode.reduce128#1: V = W
+//@ assert before "return nan(payloadOpPow, payloadValNegFinite, rhs)": LADDER && DFin && sign(d) && ye < 6176
+//@ assert before "if oSig[1] != 0 || oSig[0] > maxUnbiasedExponent {": POWTEN
+//@ assert before "exp := (dExp - exponentBias) / 2": LADDER && DFin && !sign(d) && xc == 1 && xe % 2 == 0 && yc == 5 && ye == 6175
+//@ assert before "return one(false)"#1: OZero
+//@ assert before "return one(false)"#2: !OZero && DOne && (!sign(d) || isinf(o))
+//@ assert before "return one(false).QuoWithMode(d, mode)": OOne && sign(o)
+//@ assert before "return d"#1: OOne && !sign(o)
+//@ assert before "return d"#2: isnan(d)
+//@ assert before "return o"#4: isnan(o) && !isnan(d)
+//@ assert before "if d.IsZero() {"#1: isinf(o) && !isnan(d)
+//@ assert before "neg := false"#1: LADDER && !special(d) && coef(d) == 0
+//@ assert before "if dNeg {"#1: LADDER && isinf(d)
 //@ limit before "inv, res, trunc := decomposed192{"
 //@ props C18 C15 C20
 
@@ -2705,6 +2729,7 @@ package decimal128
 //@ ensures old(*i) == 0 ==> !special(r) && coef(r) == 0 && bexp(r) == 0 && !sign(r)
 //@ ensures old(*i) != 0 ==> sign(r) == (old(*i) < 0) && !isnan(r)
 //@ ensures old(*i) != 0 && isinf(r) ==> Ovf(DefaultRoundingMode, sign(r), rs(V, 12287))
+//@ ensures old(*i) != 0 && old(*i) <= M && 0 - old(*i) <= M ==> !special(r) && bexp(r) == 6176 && coef(r) == ite(old(*i) < 0, 0 - old(*i), old(*i))
 //@ ensures old(*i) != 0 && !special(r) ==> RndOK(DefaultRoundingMode, sign(r), rs(V, bexp(r)), coef(r), bexp(r))
 //@ define BLF = (bl >= 1 && (bl <= 256 ==> ABS < pow2(bl)) && (bl <= 257 ==> ABS >= pow2(bl - 1)) && (bl > 256 ==> ABS >= pow2(256)))
 //@ define COMMON = (*old(i) == old(*i) && old(*i) != 0 && neg == (old(*i) < 0) && (*i < 0) == neg && *i != 0 && exp >= 6176 && exp <= 12287 + 18 && (trunc == 0 || trunc == 1) && *e18 == 1000000000000000000)
@@ -2737,3 +2762,54 @@ package decimal128
 //@ ensures E < 0 - 35 ==> *res == 0
 //@ apply before "if exp > 0 {"#2: pw10n_pos(ite(exp > 0, exp, 0 - exp))
 //@ props C10 C20
+
+// Decimal.Rat (C10): the exact value as numerator / denominator (the model keeps the fraction the
+// code builds; math/big normalises it to lowest terms, which does not change the value).
+//@ func Decimal.Rat
+//@ returns (res)
+//@ define E = (bexp(d) - 6176)
+//@ define C = coef(d)
+//@ define SN = ite(sign(d), 0 - ratnum(res), ratnum(res))
+//@ panics special(d)
+//@ ensures ratden(res) >= 1
+//@ ensures E >= 0 ==> SN == C * pw10(E) * ratden(res)
+//@ ensures E < 0 ==> SN * pw10(0 - E) == C * ratden(res)
+//@ apply before "bigexp.Exp(big.NewInt(10), bigexp, nil)": pw10n_pos(ite(exp > 0, exp, 0 - exp))
+//@ props C10 C20
+
+// FromRat (C10): for a numerator and a denominator of at most 34 digits (exactly representable) the
+// correctly rounded quotient; the conversion of longer operands rounds them first (not specified here).
+//@ func FromRat
+//@ returns (res)
+//@ logical V real, VN real, VD real
+//@ define N = ratnum(r)
+//@ define D = ratden(r)
+//@ define AN = ite(N < 0, 0 - N, N)
+//@ requires DefaultRoundingMode <= 5 && D >= 1
+//@ requires N != 0 && AN <= M && D <= M ==> V > 0 && rs(V, 6176) * real(D) == real(AN)
+//@ requires N != 0 ==> VN > 0 && rs(VN, 6176) == real(AN)
+//@ requires VD > 0 && rs(VD, 6176) == real(D)
+//@ ensures N == 0 ==> !special(res) && coef(res) == 0 && !sign(res)
+//@ ensures N != 0 && AN <= M && D <= M ==> !isnan(res) && sign(res) == (N < 0)
+//@ ensures N != 0 && AN <= M && D <= M && isinf(res) ==> Ovf(DefaultRoundingMode, sign(res), rs(V, 12287))
+//@ ensures N != 0 && AN <= M && D <= M && !special(res) ==> (rs(V, 0) < 0.1 && coef(res) == 0) || (rs(V, 0) >= 0.1 && RndOK(DefaultRoundingMode, sign(res), rs(V, bexp(res)), coef(res), bexp(res)))
+//@ call Decimal.Quo#1: V = V
+//@ call FromInt#1: V = VN
+//@ call FromInt#2: V = VD
+//@ waive call-requires at "return FromInt(num).Quo(FromInt(denom))": for operands of more than 34 digits the two conversions round first and the quotient of the rounded operands is outside this contract (Quo's postconditions are then not assumed)
+//@ props C10 C20
+
+// Decimal.Scan (C05, thin): the token predicate handed to fmt.ScanState.Token accepts exactly the
+// bytes of the number syntax; Scan itself is checked for safety and for leaving the receiver
+// untouched on error. What fmt.ScanState delivers is outside any contract (external interface).
+//@ func Decimal.Scan$1
+//@ ensures result == ((r >= 48 && r <= 57) || r == 46 || r == 69 || r == 101 || r == 45 || r == 95 || r == 43)
+//@ props C05 C20
+
+//@ func Decimal.Scan
+//@ returns (err)
+//@ requires DefaultRoundingMode <= 5
+//@ ensures tag(err) != 0 ==> *d == old(*d)
+//@ ensures !(verb == 101 || verb == 69 || verb == 102 || verb == 70 || verb == 103 || verb == 71 || verb == 118) ==> tag(err) != 0
+//@ waive call-requires at "tmp, err := parseNumber(tok, neg, true)": the token comes from fmt.ScanState (external); parseNumber's value-level postconditions are not used here
+//@ props C05 C20
